@@ -28,6 +28,7 @@ func c17(tier string) []*explore.Scenario {
 	for _, when := range []string{"before-old-fails", "after-old-fails"} {
 		out = append(out, c17Reattach("C17", when, bound))
 	}
+	out = append(out, c17ReattachRacesTraffic("C17", 3, bound+1), c17ReattachRacesTraffic("C17", 6, bound))
 	for _, dial := range []string{"fails", "succeeds", "pending"} {
 		out = append(out, c17AttachDuringDial("C17", dial, bound))
 		if dial != "pending" {
@@ -975,6 +976,77 @@ func c17AttachRacesRouting(prop, dial string, bound int) *explore.Scenario {
 			}
 			if n := count("c", 80) + count("cdial", 80); n > 1 {
 				vsched.Fail(fam+"|duplicate", "envelope 80 was delivered %d times", n)
+			}
+		},
+	}
+}
+
+// c17ReattachRacesTraffic: peer b re-attaches (AddClient from its own thread) while envelopes
+// a->b are being forwarded. Both of b's connections are alive, so every envelope reaches exactly
+// one of them exactly once, each connection sees its share in order, and envelopes sent after
+// AddClient returned belong to the new connection.
+func c17ReattachRacesTraffic(prop string, n, bound int) *explore.Scenario {
+	fam := prop + "/reattach-races-traffic"
+	return &explore.Scenario{
+		Name: fmt.Sprintf("%s/reattach-races-traffic/n=%d", prop, n), Family: fam, Prop: prop, Bound: bound,
+		Run: func() {
+			t, peers := c17Env(8)
+			vsched.Settle()
+			vsched.Explore(true)
+			nb := env.NewPipe(t.Tap, env.PipeOpts{Name: "b2", Cap: 8})
+			attached := false
+			for i := 0; i < n; i++ {
+				peers["a"].A.Inject(c17Msg(uint64(41+i), "a", "b"))
+			}
+			vsched.GoNamed("reattach-b", func() { t.Proxy.AddClient("b", nb.B); attached = true })
+			vsched.Quiesce()
+			peers["a"].A.Inject(c17Msg(60, "a", "b"))
+			peers["b"].A.Inject(c17Msg(61, "b", "a")) // the old connection may still talk
+			nb.A.Inject(c17Msg(62, "b", "a"))
+			vsched.Quiesce()
+			var oldIDs, newIDs []uint64
+			for _, e := range t.Tap.Events {
+				if e.Dir == "b2a" && e.Wire == "b" {
+					oldIDs = append(oldIDs, e.Rpc.GetId())
+				}
+				if e.Dir == "b2a" && e.Wire == "b2" {
+					newIDs = append(newIDs, e.Rpc.GetId())
+				}
+			}
+			vsched.Obs("attached=%v old=%v new=%v 61->a=%d 62->a=%d disconnects=%v", attached, oldIDs, newIDs, delivered(t, "a", 61), delivered(t, "a", 62), t.Disconnects)
+			if !attached {
+				vsched.Fail(fam+"|attach-hang", "AddClient did not return")
+				return
+			}
+			seen := map[uint64]int{}
+			for _, l := range [][]uint64{oldIDs, newIDs} {
+				for i, id := range l {
+					seen[id]++
+					if i > 0 && l[i-1] > id {
+						vsched.Fail(fam+"|order", "envelopes a->b arrived out of order on one connection: %v", l)
+					}
+				}
+			}
+			for i := 0; i < n; i++ {
+				if c := seen[uint64(41+i)]; c != 1 {
+					vsched.Fail(fam+"|exactly-once", "envelope %d a->b, forwarded while b re-attached, was delivered %d times (old connection %v, new connection %v)", 41+i, c, oldIDs, newIDs)
+				}
+			}
+			if c := 0; true {
+				for _, id := range newIDs {
+					if id == 60 {
+						c++
+					}
+				}
+				if c != 1 {
+					vsched.Fail(fam+"|newer-connection-disturbed", "envelope 60, sent after AddClient returned, reached b's new connection %d times (old %v, new %v)", c, oldIDs, newIDs)
+				}
+			}
+			if delivered(t, "a", 62) != 1 {
+				vsched.Fail(fam+"|from-new-connection", "an envelope b->a written on b's new connection was delivered %d times", delivered(t, "a", 62))
+			}
+			if len(t.Disconnects) != 0 {
+				vsched.Fail(fam+"|healthy-reported", "no connection failed, yet %v was reported disconnected", t.Disconnects)
 			}
 		},
 	}
